@@ -71,7 +71,7 @@ package encrypt
 //@   ensures C09/a-failing-step-fails-the-call: err == nil ==> failedCalls("(*Filter).encrypt") == 0 && failedCalls("(*Filter).hmacSha256") == 0 && failedCalls("setValue") == 0
 //@   ensures never-copies: events("sys:deepcopy") == old(events("sys:deepcopy"))
 //@   ensures C09/missing-tag-is-an-error: classificationTag == nil ==> err != nil && ev_n == old(ev_n)
-//@   ensures C09/public-and-explicit-no-operation-are-left-alone: classificationTag != nil && (classificationTag.Classification == PublicClassification || classificationTag.Operation == NoOperation) ==> err == nil && ev_n == old(ev_n)
+//@   ensures C09+C10/public-and-explicit-no-operation-are-left-alone: classificationTag != nil && (classificationTag.Classification == PublicClassification || classificationTag.Operation == NoOperation) ==> err == nil && ev_n == old(ev_n)
 //@   ensures C09/failure-mutates-nothing: err != nil ==> events("reflect:set") == old(events("reflect:set")) && (events("sys:psset") == old(events("sys:psset")) || (ev_kind(ev_n - 1) == "sys:psset" && ev_a(ev_n - 1, 7) != 0))
 //@   ensures not-recursive: callsTo("(*Filter).filterValue") == old(callsTo("(*Filter).filterValue"))
 //@   ensures C09/at-most-one-mutation: events("reflect:set") + events("sys:psset") <= old(events("reflect:set")) + old(events("sys:psset")) + 1
